@@ -225,30 +225,37 @@ def sliceRow (b : RawBlock) (row : List String) : List String := (row.drop (b.da
 
 def dateCell (b : RawBlock) (row : List String) : String := row.getD b.dateCol ""
 
+/-- the parsed period of a date cell, or the exception of `Period.from_sdmx_string` -/
+def parsePeriod (c : Codec V) (f : BFreq) (s : String) : R Int :=
+  match c.parseDate f s with
+  | some p => pure p
+  | none => throw .badInput
+
 /-- `_extract_periods_from_data_rows` (default `start_period_only=False`), `_read_array_for_block`,
-`_add_series_for_block` for one block -/
+`_add_series_for_block` for one block, `r0` being the first data row -/
+def decodeBody (c : Codec V) (nameRow descRow : List String) (dataRows : List (List String)) (b : RawBlock)
+    (r0 : List String) : R (List (String × Ser V)) :=
+  -- `start_date = period_from_string(data_rows[0][column], ...)` is evaluated (and may raise) although unused;
+  -- `UnknownPeriod.from_sdmx_string` returns None for every string
+  if b.freq ≠ .U ∧ c.parseDate b.freq (dateCell b r0) = none then throw .badInput
+  else
+    let dated := dataRows.filter (fun r => dateCell b r ≠ "")
+    let cols := columnIterator (sliceRow b nameRow) (sliceRow b descRow)
+    let arr : List (List (Option V)) := dated.map (fun r => (sliceRow b r).map c.parseCell)
+    if b.freq = .U then
+      -- periods would be `None` objects: only the case without dated rows is modelled
+      if dated.isEmpty then pure (cols.map (fun cs => (cs.name, Ser.empty cs.count cs.desc)))
+      else throw .badInput
+    else do
+      let periods ← dated.mapM (fun r => parsePeriod c b.freq (dateCell b r))
+      pure (cols.map (fun cs =>
+        (cs.name, setData b.freq cs.count cs.desc periods (arr.map (fun r => (r.drop cs.first).take cs.count)))))
+
 def decodeBlock (c : Codec V) (nameRow descRow : List String) (dataRows : List (List String)) (b : RawBlock) :
     R (List (String × Ser V)) :=
   match dataRows with
   | [] => throw .badInput                                  -- `data_rows[0]`: IndexError
-  | r0 :: _ =>
-    -- `start_date = period_from_string(data_rows[0][column], ...)` is evaluated (and may raise) although unused;
-    -- `UnknownPeriod.from_sdmx_string` returns None for every string
-    if b.freq ≠ .U ∧ c.parseDate b.freq (dateCell b r0) = none then throw .badInput
-    else
-      let dated := dataRows.filter (fun r => dateCell b r ≠ "")
-      let cols := columnIterator (sliceRow b nameRow) (sliceRow b descRow)
-      let arr : List (List (Option V)) := dated.map (fun r => (sliceRow b r).map c.parseCell)
-      if b.freq = .U then
-        -- periods would be `None` objects: only the case without dated rows is modelled
-        if dated.isEmpty then pure (cols.map (fun cs => (cs.name, Ser.empty cs.count cs.desc)))
-        else throw .badInput
-      else do
-        let periods ← dated.mapM (fun r => match c.parseDate b.freq (dateCell b r) with
-          | some p => (pure p : R Int)
-          | none => throw .badInput)
-        pure (cols.map (fun cs =>
-          (cs.name, setData b.freq cs.count cs.desc periods (arr.map (fun r => (r.drop cs.first).take cs.count)))))
+  | r0 :: _ => decodeBody c nameRow descRow dataRows b r0
 
 /-- `Databox.from_csv_file` on the parsed grid.  Ragged grids are rejected up front (the code rejects them in
 `genfromtxt` or with an IndexError; header rows shorter than data rows are not modelled). -/
